@@ -182,6 +182,7 @@ end
 def parseValueBytes (b : Bytes) : Option Value :=
   let ts := tokenize b
   match parseValue (ts.length + 1) ts with
+  | some (.nil, []) => some .noValue     -- top-level nil data is reflect's invalid Value
   | some (v, []) => some v
   | _ => none
 
